@@ -603,6 +603,18 @@ def gen_C08(rng, n, exhaustive_prefix=True):
         for pre in (2, 3):
             out.append((f'{g}.from_compressed:special:zero', f'{g}.from_compressed {pre:02x}{hb(xz)}'))
             out.append((f'{g}.from_compressed:special:ff', f'{g}.from_compressed {pre:02x}{hb(bytes([255]) * cl)}'))
+    # G2 decoders on points of the twist that are NOT in the order-r subgroup: every small-order class
+    # (13, 1621, 13*1621), a subgroup point plus a small-order point, a random twist point — each through all three formats
+    offs = [('order-13', small_order_twist_point(13, rng)), ('order-1621', small_order_twist_point(1621, rng)),
+            ('order-21073', small_order_twist_point(13 * 1621, rng)),
+            ('subgroup+order-13', pt_add(K2, pt_mul(K2, rng.randrange(1, r), P2), small_order_twist_point(13, rng))),
+            ('random-twist-point', random_curve_point(K2, rng))]
+    for lab, T in offs:
+        if T is None:
+            continue
+        out.append((f'g2.from_slice:{lab}', f'g2.from_slice {enc_aff(K2, T)}'))
+        out.append((f'g2.from_uncompressed:{lab}', f'g2.from_uncompressed 04{enc_aff(K2, T)}'))
+        out.append((f'g2.from_compressed:{lab}', f'g2.from_compressed {2 + (T[1][0] & 1):02x}{K2.enc(T[0])}'))
     for _ in range(n):
         g, K, G = rng.choice([('g1', K1, P1), ('g2', K2, P2)])
         A = pt_mul(K, rng.randrange(1, r), G)
@@ -840,6 +852,18 @@ def gen_C17(rng, n):
         Bq = pt_mul(K2, b or 1, P2)
         out.append(('miller.g2', f'miller.g2 {jac(K2, Bq)} {jac(K1, A)}'))
         out.append(('miller.prep', f'miller.prep {jac(K2, Bq)} {jac(K1, A)}'))
+    # "both Miller-loop variants agree up to factors the final exponentiation removes", at the entry points, on the
+    # inputs where the loops are cut short: every representation class of the identity, on either side
+    A = pt_mul(K1, rng.randrange(1, r), P1)
+    Bq = pt_mul(K2, rng.randrange(1, r), P2)
+    for cls in (0.1, 0.5, 0.8, 0.9):
+        REP_CLASSES['_tmp'] = cls
+        l1, t1 = rep(rng, K1, None, '_tmp')
+        l2, t2 = rep(rng, K2, None, '_tmp')
+        for e in ['pairing', 'fast', 'prep']:
+            out.append((f'pair.{e}:identity-left:{l1}', f'pair.{e} {t1} {rep(rng, K2, Bq)[1]}'))
+            out.append((f'pair.{e}:identity-right:{l2}', f'pair.{e} {rep(rng, K1, A)[1]} {t2}'))
+    REP_CLASSES.pop('_tmp', None)
     return out
 
 
